@@ -255,7 +255,7 @@ where
         let mut map = HashMap::with_hasher(crate::verif::SeededState::current());
         let mut old_seq = Vec::new();
         let mut new_seq = Vec::new();
-        let mut next_id = Int::default();
+        let mut last_id: Option<Int> = None;
         let step = Int::from(1);
         let old_start = old_range.start;
         let new_start = new_range.start;
@@ -265,8 +265,13 @@ where
             let id = match map.entry(item) {
                 Entry::Occupied(o) => *o.get(),
                 Entry::Vacant(v) => {
-                    let id = next_id;
-                    next_id = next_id + step;
+                    // only compute the successor when it is needed, so that an id type
+                    // with exactly as many values as there are distinct items is enough
+                    let id = match last_id {
+                        Some(last) => last + step,
+                        None => Int::default(),
+                    };
+                    last_id = Some(id);
                     *v.insert(id)
                 }
             };
@@ -278,8 +283,13 @@ where
             let id = match map.entry(item) {
                 Entry::Occupied(o) => *o.get(),
                 Entry::Vacant(v) => {
-                    let id = next_id;
-                    next_id = next_id + step;
+                    // only compute the successor when it is needed, so that an id type
+                    // with exactly as many values as there are distinct items is enough
+                    let id = match last_id {
+                        Some(last) => last + step,
+                        None => Int::default(),
+                    };
+                    last_id = Some(id);
                     *v.insert(id)
                 }
             };
